@@ -564,7 +564,7 @@ package rac
 //@   requires rOK(r)
 //@   ensures rOK(r) && unchanged(r.pos) && unchanged(r.Concurrency) && implies(result == nil, r.chunkReader.initialized && r.chunkReader.err == nil && r.err == nil)
 //@   ensures[idle] implies(old(r.Concurrency) <= 1, unchanged(r.concReader.stopc))
-//@   ensures[frame] unchanged(r.dRange[0]) && unchanged(r.dRange[1]) && unchanged(r.decompressor) && unchanged(r.inImplicitZeroes) && unchanged(r.chunkReader.seekPosition) && unchanged(r.CodecReaders) && unchanged(mem(r.CodecReaders)) && implies(result != nil, r.err == result)
+//@   ensures[frame] unchanged(r.closed) && unchanged(r.dRange[0]) && unchanged(r.dRange[1]) && unchanged(r.decompressor) && unchanged(r.inImplicitZeroes) && unchanged(r.chunkReader.seekPosition) && unchanged(r.CodecReaders) && unchanged(mem(r.CodecReaders)) && implies(result != nil, r.err == result)
 //@   ensures[again] implies(old(r.err) == nil && old(r.chunkReader.initialized), result == nil && unchanged(r.posLimit) && unchanged(r.concReader.stopc) && unchanged(r.chunkReader.decompressedSize))
 //@   ensures[first] implies(result == nil && !old(r.chunkReader.initialized), r.posLimit == r.chunkReader.decompressedSize)
 //@   ensures[sticky] implies(old(r.err) != nil, result == old(r.err))
@@ -679,6 +679,39 @@ package rac
 //@   assume@after initialize#1 result != errInternalInconsistentPosition
 //@   loop 1 invariant r.err == nil && rOK(r) && seqInv(r) && isnil(r.concReader.stopc) && r.posLimit == atentry(1, r.posLimit) && r.chunkReader.initialized && r.chunkReader.err == nil && forall(k, 0, len(r.CodecReaders), r.CodecReaders[k] != nil)
 //@   loop 1 invariant 0 <= numRead && base(p) == old(base(p)) && off(p) == old(off(p)) + numRead && int64(numRead) + int64(len(p)) <= int64(old(len(p))) && r.pos == old(r.pos) + int64(numRead) && math(r.pos) + math(len(p)) <= math(r.posLimit)
+
+// Reader.Close: same discipline as Writer.Close. The concurrent reader's Close is framed only.
+//@ func (*concReader).Close
+//@   prop C14
+//@   trusted concurrent code path (goroutines, channels): not verified; assumed to touch only the concReader
+//@   modifies *c
+
+//@ func (*concReader).CloseWithoutWaiting
+//@   prop C14
+//@   trusted concurrent code path (goroutines, channels): not verified; assumed to touch only the concReader
+//@   modifies *c
+
+//@ func iface rac.CodecReader.Close
+//@   trusted_contract rac.CodecReader.Close: touches nothing the Reader can see; result arbitrary
+//@   pure
+
+//@ func (*Reader).close
+//@   prop C14
+//@   requires rOK(r) && implies(r.closed, r.err != nil) && forall(k, 0, len(r.CodecReaders), r.CodecReaders[k] != nil)
+//@   ensures[again] implies(old(r.closed), result == old(r.err) && unchanged(r.err))
+//@   ensures[sticky] implies(old(r.err) != nil, result == old(r.err) && unchanged(r.err))
+//@   ensures[reported] r.closed && implies(result == nil, r.err == errAlreadyClosed) && implies(result != nil, r.err == result)
+//@   loop 1 invariant -1 <= rangeindex && rangeindex < len(r.CodecReaders) && r.closed && implies(old(r.err) != nil, r.err == old(r.err)) && sameslice(r.CodecReaders, old(r.CodecReaders)) && forall(k, 0, len(r.CodecReaders), r.CodecReaders[k] != nil) && !old(r.closed)
+//@   loop 1 decreases len(r.CodecReaders) - rangeindex
+//@   modifies *r, mem(r.chunkReader.currNode)
+
+//@ func (*Reader).Close
+//@   prop C14
+//@   requires rOK(r) && implies(r.closed, r.err != nil) && forall(k, 0, len(r.CodecReaders), r.CodecReaders[k] != nil)
+//@   ensures[again] implies(old(r.closed), result == old(r.err) && unchanged(r.err))
+//@   ensures[sticky] implies(old(r.err) != nil, result == old(r.err) && unchanged(r.err))
+//@   ensures[reported] r.closed && implies(result == nil, r.err == errAlreadyClosed) && implies(result != nil, r.err == result)
+//@   modifies *r, mem(r.chunkReader.currNode)
 
 // The concurrent reader is outside what function contracts can decide; its seek
 // is only framed here so that the sequential branch of Reader.seek can be proved.
